@@ -225,8 +225,9 @@ impl Property for C01 {
                             hint,
                             source: Source::Mem,
                             dup_of: None,
+                            flip: None,
                         };
-                        let target = ContentSpec { len, ent, seed: k, hint, source, dup_of: None };
+                        let target = ContentSpec { len, ent, seed: k, hint, source, dup_of: None, flip: None };
                         let contents = match pos {
                             0 => vec![target, filler(k + 1), filler(k + 2)],
                             1 => vec![filler(k + 1), target, filler(k + 2)],
